@@ -248,4 +248,43 @@ PROPS = {
         assumptions=COMMON_ASSUME,
         partial=["IEEE rounding (float vs real) is covered only by the numeric comparison, not by a theorem"],
     ),
+    "C12": dict(
+        level="proof",
+        trusted_base=[KERNEL + " (Mathlib real analysis)", CORR,
+                      "the chain theorem is about the REAL-NUMBER semantics of lean/LdpcV/Model/Chain.lean (composition of the C15 block re-orderings and the C14 "
+                      "modulators / demodulators); the implementation is observed through an injected DecoderFactory whose decoder records every LLR vector it is handed",
+                      "NOT modelled / only observed statistically: rand_distr::Normal, the ChaCha/thread RNG, independence and Gaussianity of the noise samples"],
+        rule=("chain: 3 (5 thorough) encodable matrices (4x12, 6x18, 12x24, ...) x every fitting puncturing pattern of length 2,3,4,6 with one removed block (tail / middle / "
+              "systematic) or none x BPSK / 8PSK x interleaver {none, +-2, +-3, +-4} that fits, at Eb/N0 = 60 dB: Ber::{n, n_cw, k, rate} compared exactly with the "
+              "model and up to 24 recorded LLR vectors per configuration judged: length n_cw, exact zeros exactly at the punctured positions, the signs complete to "
+              "a codeword of H (punctured bits solved by enumeration) and equal the sign pattern of the generic chain model for that codeword; noise: BPSK at 12 / "
+              "15 dB with and without puncturing, >= 1.6e5 (1.6e6) noise samples recovered from the LLRs with the MODEL's sigma: mean, variance, lag-1 correlation "
+              "within 6 standard errors of 0, sigma^2, 0; non-trivial = a configuration with puncturing or interleaving; distinct = distinct configuration"),
+        assumptions=COMMON_ASSUME,
+        partial=["noise distribution: only mean / variance / lag-1 autocorrelation of BPSK noise are measured (8PSK noise and I/Q cross-correlation are not); "
+                 "Gaussianity and independence are not established by any theorem", "IEEE rounding"],
+    ),
+    "C13": dict(
+        level="proof",
+        extra_lean_targets=["LdpcV.Props.C13Proto"],
+        extra_prop_files=["LdpcV/Props/C13Proto.lean"],
+        harness_timeout=3600,
+        trusted_base=[KERNEL, CORR,
+                      "statistics: the accumulator lean/LdpcV/Model/BerStats.lean mirrors the body of the consumption loop of do_run; the consumed sequence is "
+                      "reconstructed from the zero-interval Reporter stream (one Statistics per consumed result) using a scripted injected decoder whose frames carry a "
+                      "unique id in their iteration count",
+                      "protocol: lean/LdpcV/Model/BerProto.lean is a hand-written labelled transition system of the collector / worker protocol (std::sync::mpsc and "
+                      "thread scheduling are NOT modelled beyond it); it is tied to the code only through observable behaviour (worker counts, Finished last, failure "
+                      "injection outcomes, watchdog)",
+                      "liveness ('eventually done') needs scheduler fairness and is not proved: deadlock-freedom + all-joined + error propagation are"],
+        rule=("worker counts {1, 2, 16} (1..16 thorough) set through sched_setaffinity (the number of built decoders is checked to be workers x points) x error targets "
+              "{1, 3, 20} x outer-code threshold {none, 1, 2} x 2 (10) repetitions with random modulation / puncturing / interleaving, 2 Eb/N0 points, scripted decoder "
+              "with seeded random delays 0-300 us: EVERY intermediate and final Statistics (integers exactly, the four ratios bit for bit) is replayed through the "
+              "model accumulator; checked: frames are whole scripted frames, each consumed at most once, no frame after the target was reached, the point stops "
+              "exactly at the target, reports ordered by point, Finished is last and unique, returned statistics = last report; failure injection (puncturer error, "
+              "interleaver panic, modulator panic, decoder panic in every / every 2nd / every 3rd worker) at 1, 4, 16 workers under a 20 s watchdog: run() must return "
+              "Err; non-trivial = target >= 3; distinct = distinct (configuration, reported stream)"),
+        assumptions=COMMON_ASSUME,
+        partial=["real OS scheduling is sampled (randomised delays), not enumerated; liveness under fairness is not proved"],
+    ),
 }
